@@ -151,6 +151,15 @@ class Ctx:
                 util.LSB0_ON = self._on_n % 5 if self._on_n % 3 == 0 else 0
                 if util.LSB0_ON:
                     case['_on'] = util.LSB0_ON
+        # what was done with a str operand's text before it is used (see util._str_operand)
+        if isinstance(case, dict):
+            if '_sh' in case:
+                util.STR_HISTORY = case['_sh']
+            else:
+                self._sh_n = getattr(self, '_sh_n', 0) + 1
+                util.STR_HISTORY = (self._sh_n // 4) % 5 if self._sh_n % 4 == 0 else 0
+                if util.STR_HISTORY:
+                    case['_sh'] = util.STR_HISTORY
         before = util.get_options()
         try:
             with self.watch(case):
@@ -160,6 +169,9 @@ class Ctx:
                           traceback.format_exc()[-500:])
         finally:
             util.AMBIENT = {}
+            if util.STR_HISTORY:
+                self.ops['str-operand-text-used-before:' + ('', 'by-a-mutable-object-then-changed', 'two-tokens', 'three-tokens', 'line-breaks-inside')[util.STR_HISTORY]] += 1
+            util.STR_HISTORY = 0
             if util.LSB0_ON:
                 self.ops['lsb0-switched-on-with:' + ('True', '1', '2', "'yes'", 'numpy.bool_(True)')[util.LSB0_ON]] += 1
             util.LSB0_ON = 0
